@@ -266,7 +266,24 @@ func c15Run(c c15Case) Verdict {
 		for _, cp := range res.caps {
 			offered[strings.ToUpper(strings.Fields(cp)[0])] = true
 		}
-		if i := strings.Index(line, ">"); i >= 0 {
+		// where the path ends: at the first '>' outside a quoted string, as
+		// RFC 5321 reads it; if the quoting never ends no receiver reads it
+		// that way, and the first '>' of all is where one will cut
+		pathEnd, inq := -1, false
+		for k := 0; k < len(line) && pathEnd < 0; k++ {
+			switch ch := line[k]; {
+			case inq && ch == '\\':
+				k++
+			case ch == '"':
+				inq = !inq
+			case ch == '>' && !inq:
+				pathEnd = k
+			}
+		}
+		if pathEnd < 0 {
+			pathEnd = strings.Index(line, ">")
+		}
+		if i := pathEnd; i >= 0 {
 			for _, tok := range strings.Fields(line[i+1:]) {
 				key := strings.ToUpper(strings.SplitN(tok, "=", 2)[0])
 				ext, known := c15KeywordExt[key]
@@ -345,6 +362,15 @@ func init() {
 func c15Embed(t *rapid.T, benign, label string) string {
 	if rapid.IntRange(0, 3).Draw(t, label+"_h") != 0 {
 		return benign
+	}
+	if rapid.IntRange(0, 5).Draw(t, label+"_kw") == 0 {
+		// something that reads as an ESMTP parameter once a receiver has
+		// cut the path short: behind a '>', a quote, or both (D27, D36)
+		return rapid.SampledFrom([]string{"a@b", "\"", "\"a\"", "", "x\\"}).Draw(t, label+"_base") +
+			rapid.SampledFrom([]string{">", "\">", ">\"", "\" >"}).Draw(t, label+"_close") +
+			rapid.SampledFrom([]string{"", " "}).Draw(t, label+"_sp") +
+			rapid.SampledFrom([]string{"SIZE=1", "SIZE", "SMTPUTF8", "REQUIRETLS", "BODY=8BITMIME", "RET=HDRS", "NOTIFY=NEVER", "RRVS=2014-04-03T23:01:00Z", "AUTH=<>"}).Draw(t, label+"_param") +
+			rapid.SampledFrom([]string{"", " ", " <"}).Draw(t, label+"_tail")
 	}
 	h := rapid.SampledFrom(c15Hostile).Draw(t, label+"_hs")
 	pos := rapid.IntRange(0, len(benign)).Draw(t, label+"_pos")
